@@ -79,6 +79,8 @@ theorem SRel.ofWF {Q : QRel} {cx : Cx} (hq : QRefl Q) {σ : State N} (h : State.
   pinR := fun _ hp => by cases hp
   pinT := fun _ hp => by cases hp
   pinC := fun _ hp => by cases hp
+  pinTl := fun _ hp => by cases hp
+  pinCl := fun _ hp => by cases hp
   inv := hI
 
 theorem inRange_libTable (σ : State N) (pre : String) (names : List String) :
